@@ -65,6 +65,33 @@ pub fn j01(arena: &Arena<Payload>, obs: &[SlotObs]) -> Vec<Failure> {
         }
         Ok(x)
     };
+    // the textual report of a node (its Display impl) names the same links as the accessors: wherever
+    // the text says "<label>: <position>" or "no <label>" for one of the five links it must agree
+    // (a rendering that does not mention a link in either form claims nothing)
+    for (x, o) in obs.iter().enumerate() {
+        if o.removed {
+            continue;
+        }
+        if let Ok(text) = guarded(|| arena.as_slice()[x].to_string().to_lowercase()) {
+            for (k, label) in ["parent", "previous sibling", "next sibling", "first child", "last child"].iter().enumerate() {
+                let want = o.links[k].map(|id| usize::from(id));
+                let said: Option<Option<usize>> = if let Some(i) = text.find(&format!("{label}: ")) {
+                    let digits: String = text[i + label.len() + 2..].chars().take_while(|c| c.is_ascii_digit()).collect();
+                    digits.parse::<usize>().ok().map(Some)
+                } else if text.contains(&format!("no {label}")) {
+                    Some(None)
+                } else {
+                    None
+                };
+                if let Some(said) = said {
+                    if said != want {
+                        out.push(fail(C01, "links", false, obs::LINK_NAMES[k], "-", "display-of-node-misreports-link",
+                            format!("the node in slot {} displays as {text:?}, but its {} is {}; arena: {}", x + 1, obs::LINK_NAMES[k], fmt_id(o.links[k]), txt())));
+                    }
+                }
+            }
+        }
+    }
     let mut bad_link = false;
     for (x, o) in obs.iter().enumerate() {
         if o.removed {
@@ -805,6 +832,59 @@ where
     if lo > l || hi.map(|h| h < l).unwrap_or(false) {
         return Some(ProtoFail { why: format!("{ctx} the rest is {:?}, but size_hint() = ({lo}, {hi:?})", rest), dup: false });
     }
+    // the other consumers a type may override
+    {
+        let mut got = Vec::new();
+        at().for_each(|x| got.push(x));
+        if got[..] != *rest {
+            return bad(format!("for_each() visits {:?}", got), &got);
+        }
+        let got: Vec<I::Item> = at().collect();
+        if got[..] != *rest {
+            return bad(format!("collect() gives {:?}", got), &got);
+        }
+        let r = at().reduce(|_, b| b);
+        if r != rest.last().cloned() {
+            return bad(format!("reduce(|_, b| b) = {:?}", r), &r.clone().into_iter().collect::<Vec<_>>());
+        }
+        let pos = |x: &I::Item| rest.iter().position(|y| y == x).unwrap_or(usize::MAX);
+        let r = at().max_by(|a, b| pos(a).cmp(&pos(b)));
+        if r != rest.last().cloned() {
+            return bad(format!("max_by(position) = {:?}", r), &r.clone().into_iter().collect::<Vec<_>>());
+        }
+        let r = at().min_by(|a, b| pos(a).cmp(&pos(b)));
+        if r != rest.first().cloned() {
+            return bad(format!("min_by(position) = {:?}", r), &r.clone().into_iter().collect::<Vec<_>>());
+        }
+        if !at().eq(rest.iter().cloned()) {
+            return Some(ProtoFail { why: format!("{ctx} the rest is {:?}, but eq() with that sequence is false", rest), dup: false });
+        }
+    }
+    // short-circuiting searches (find, position, any, all) stop right after the element found
+    for j in probe_indices(l) {
+        let target = rest.get(j).cloned();
+        let want_after: &[I::Item] = &rest[(j + 1).min(l)..];
+        macro_rules! search {
+            ($name:expr, $call:expr, $hit:expr) => {{
+                let mut it = at();
+                let hit: bool = $call(&mut it);
+                let (after, _) = pull(it, fuel);
+                if hit != $hit || after[..] != *want_after {
+                    return bad(format!("{} for element {j} answers {hit} and the iterator then yields {:?}", $name, after), &after);
+                }
+            }};
+        }
+        let t = target.clone();
+        search!("find()", |it: &mut I| it.find(|x| Some(x) == t.as_ref()).is_some(), target.is_some());
+        let t = target.clone();
+        search!("position()", |it: &mut I| it.position(|x| Some(&x) == t.as_ref()).is_some(), target.is_some());
+        let t = target.clone();
+        search!("any()", |it: &mut I| it.any(|x| Some(&x) == t.as_ref()), target.is_some());
+        let t = target.clone();
+        search!("all()", |it: &mut I| !it.all(|x| Some(&x) != t.as_ref()), target.is_some());
+        let t = target.clone();
+        search!("find_map()", |it: &mut I| it.find_map(|x| if Some(&x) == t.as_ref() { Some(()) } else { None }).is_some(), target.is_some());
+    }
     // consuming through a &mut borrow leaves an exhausted iterator
     let mut it = at();
     let c = it.by_ref().count();
@@ -868,6 +948,16 @@ where
     });
     if got != rev {
         return bad(format!("rfold() visits {:?}", got), &got);
+    }
+    for j in probe_indices(l) {
+        let target = rev.get(j).cloned();
+        let mut it = at();
+        let t = target.clone();
+        let hit = it.rfind(|x| Some(x) == t.as_ref()).is_some();
+        let (after, _) = pull(it, fuel);
+        if hit != target.is_some() || after[..] != rest[..l.saturating_sub(j + 1)] {
+            return bad(format!("rfind() for element {j} from the back answers {hit} and the iterator then yields {:?}", after), &after);
+        }
     }
     let r = at().rev().last();
     if r != rest.first().cloned() {
@@ -1607,6 +1697,18 @@ pub fn c16_roundtrip(s: &State) -> Result<Arena<Payload>, Failure> {
             return Err(fail(C16, "serde", false, "roundtrip-tokens", "-", "token-roundtrip-failed", e));
         }
     }
+    // ... and in its binary flavour (is_human_readable() == false)
+    match crate::tokens::roundtrip_binary(a) {
+        Ok(c) => {
+            if c != *a || format!("{:?}", c) != format!("{:?}", a) {
+                return Err(fail(C16, "serde", false, "roundtrip-tokens-binary", "-", "copy-differs",
+                    format!("round trip through the token format as a non-human-readable format differs: original {:?}, copy {:?}", a, c)));
+            }
+        }
+        Err(e) => {
+            return Err(fail(C16, "serde", false, "roundtrip-tokens-binary", "-", "token-roundtrip-failed", e));
+        }
+    }
     Ok(b)
 }
 
@@ -1671,6 +1773,10 @@ pub fn rich_observation(s: &State) -> u64 {
             }
             t.push_str(&format!("{}|{:#}|{:?}|{:#?}|{}|{}", id.debug_pretty_print(&s.arena), id.debug_pretty_print(&s.arena),
                 id.debug_pretty_print(&s.arena), id.debug_pretty_print(&s.arena), id, s.arena[id]));
+            // the same renderings under width / precision / fill / alignment / sign flags
+            let (n, p) = (&s.arena[id], id.debug_pretty_print(&s.arena));
+            t.push_str(&format!("|{:.12}|{:90}|{:.0}|{:*^70}|{:>5}|{:<4}|{:03}|{:+}|{:.3}|{:30}|{:#.8?}|{:?}|{:#?}",
+                n, n, n, n, id, id, id, id, p, p, p, id, NodeEdge::Start(id)));
             t
         });
         acc.push(match r {
@@ -1772,6 +1878,142 @@ pub fn liveness_observers(s: &State, target: Props) -> Vec<Failure> {
         }
     }
     out
+}
+
+/// C11 / C08 over payload *types*: the lookups do not depend on what the payload type looks like
+/// (zero-sized, over-aligned, huge, heap-owning, niche-carrying). One small forest per type, with a
+/// removed and a recycled slot; a clone as the foreign arena.
+pub fn payload_types() -> Vec<Failure> {
+    fn battery<T: Clone + PartialEq + std::fmt::Debug>(name: &str, mk: impl Fn(usize) -> T, out: &mut Vec<Failure>) {
+        let r = guarded(|| {
+            let mut msgs: Vec<(Props, String)> = Vec::new();
+            let mut a: Arena<T> = Arena::new();
+            let root = a.new_node(mk(0));
+            let mut ids = vec![root];
+            for i in 1..7 {
+                let id = if i % 2 == 1 { ids[(i - 1) / 2].append_value(mk(i), &mut a) } else { a.new_node(mk(i)) };
+                ids.push(id);
+            }
+            ids[3].remove(&mut a);
+            ids[5].remove_subtree(&mut a);
+            let re = a.new_node(mk(33));
+            ids[usize::from(re) - 1] = re;
+            let vals: Vec<usize> = (0..7).map(|i| if usize::from(re) - 1 == i { 33 } else { i }).collect();
+            let other = a.clone();
+            for (i, id) in ids.iter().enumerate() {
+                let pos = NonZeroUsize::new(i + 1).unwrap();
+                if id.is_removed(&a) {
+                    if a.get_node_id_at(pos).is_some() {
+                        msgs.push((C11, format!("get_node_id_at({}) is Some for a removed slot", i + 1)));
+                    }
+                    continue;
+                }
+                let node = &a[*id];
+                if a.get_node_id(node) != Some(*id) || a.get_node_id_at(pos) != Some(*id) || a.get(*id).map(|n| n as *const _) != Some(node as *const _)
+                    || !std::ptr::eq(node, &a.as_slice()[i]) || usize::from(*id) != i + 1
+                {
+                    msgs.push((C11, format!("lookups disagree for the live node in slot {}: get_node_id = {:?}, get_node_id_at = {:?}", i + 1, a.get_node_id(node), a.get_node_id_at(pos))));
+                }
+                if *node.get() != mk(vals[i]) {
+                    msgs.push((C08, format!("the node in slot {} holds {:?}, stored {:?}", i + 1, node.get(), mk(vals[i]))));
+                }
+                if a.get_node_id(&other[*id]).is_some() || other.get_node_id(node).is_some() {
+                    msgs.push((C11, format!("get_node_id answers Some for a node of another arena (slot {})", i + 1)));
+                }
+            }
+            if a.count() != 7 || a.iter().count() != 7 || a.as_slice().len() != 7 {
+                msgs.push((C11, "count(), iter().count() and as_slice().len() disagree".into()));
+            }
+            msgs
+        });
+        match r {
+            Ok(msgs) => {
+                for (p, m) in msgs {
+                    out.push(fail(p, "payload-types", false, name, "-", "lookup-depends-on-payload-type", format!("Arena<{name}>: {m}")));
+                }
+            }
+            Err(m) => out.push(fail(C11 | C08, "payload-types", false, name, "-", "panicked", format!("Arena<{name}>: the battery panicked: {m}"))),
+        }
+    }
+    #[derive(Clone, PartialEq, Debug)]
+    #[repr(align(128))]
+    struct Aligned(u8);
+    #[derive(Clone, PartialEq, Debug)]
+    struct Big([u8; 4096]);
+    #[derive(Clone, PartialEq, Debug)]
+    struct Unit;
+    let mut out = Vec::new();
+    battery("()", |_| (), &mut out);
+    battery("Unit", |_| Unit, &mut out);
+    battery("[u64; 0]", |_| [0u64; 0], &mut out);
+    battery("PhantomData<String>", |_| std::marker::PhantomData::<String>, &mut out);
+    battery("u8", |i| i as u8, &mut out);
+    battery("Aligned(128)", |i| Aligned(i as u8), &mut out);
+    battery("Big(4096 bytes)", |i| Big([i as u8; 4096]), &mut out);
+    battery("String", |i| format!("payload {i}"), &mut out);
+    battery("Box<u32>", |i| Box::new(i as u32), &mut out);
+    battery("Option<NonZeroU8>", |i| std::num::NonZeroU8::new(i as u8), &mut out);
+    battery("(u64, Vec<u16>)", |i| (i as u64, vec![i as u16; i]), &mut out);
+    out
+}
+
+/// C08 (tree!): every payload the literal constructs is dropped exactly once also when the literal is
+/// left early — the arena expression panics or returns (`?`), a node expression panics half-way.
+#[cfg(feature = "it-macros")]
+pub fn tree_left_early() -> Vec<Failure> {
+    use indextree::macros::tree;
+    use std::cell::Cell;
+    let mut out = Vec::new();
+    let mut case = |name: &str, run: &dyn Fn(&Cell<Vec<u8>>)| {
+        let created: Cell<Vec<u8>> = Cell::new(Vec::new());
+        crate::payload::ledger_arm();
+        let _ = guarded(|| run(&created));
+        let mut dropped = crate::payload::ledger_take();
+        let mut made = created.take();
+        dropped.sort_unstable();
+        made.sort_unstable();
+        if dropped != made {
+            out.push(fail(C08, "tree-left-early", false, name, "-", "payload-not-dropped-exactly-once",
+                format!("tree! left early ({name}): payloads constructed {:?}, payloads dropped {:?}", made, dropped)));
+        }
+    };
+    fn mk(c: &Cell<Vec<u8>>, v: u8) -> Payload {
+        let mut x = c.take();
+        x.push(v);
+        c.set(x);
+        Payload(v)
+    }
+    case("the arena expression panics", &|c| {
+        let mut a: Arena<Payload> = Arena::new();
+        let go = true;
+        let _ = tree!({ if go { panic!("arena expression panics") }; &mut a }, mk(c, 9) => { mk(c, 10), mk(c, 11) });
+    });
+    case("the arena expression returns early", &|c| {
+        fn f(slot: Option<&mut Arena<Payload>>, c: &Cell<Vec<u8>>) -> Option<NodeId> {
+            Some(tree!(slot?, mk(c, 9) => { mk(c, 10) }))
+        }
+        let _ = f(None, c);
+    });
+    case("a node expression panics", &|c| {
+        let mut a: Arena<Payload> = Arena::new();
+        let go = true;
+        let _ = tree!(&mut a, mk(c, 9) => { mk(c, 10), { if go { panic!("node expression panics") }; mk(c, 11) }, mk(c, 12) });
+    });
+    case("the root expression panics", &|c| {
+        let mut a: Arena<Payload> = Arena::new();
+        let go = true;
+        let _ = tree!(&mut a, { if go { panic!("root expression panics") }; mk(c, 9) } => { mk(c, 10) });
+    });
+    case("nothing goes wrong", &|c| {
+        let mut a: Arena<Payload> = Arena::new();
+        let _ = tree!(&mut a, mk(c, 9) => { mk(c, 10), mk(c, 11) => { mk(c, 12) } });
+    });
+    out
+}
+
+#[cfg(not(feature = "it-macros"))]
+pub fn tree_left_early() -> Vec<Failure> {
+    Vec::new()
 }
 
 /// C12, model-free: a slot the arena itself reports removed reports no link.
